@@ -1041,6 +1041,13 @@ def fault_templates():
     T('nonlocal-preempt-other-before', "int plain(int v) { write('f'); return v + 1; }\nempty !baba(int v) { if (v > 0) { preempt { write('P'); } } write('b'); }\n"
       "empty @is_you(int a, int b) { try { write('t'); int r = plain(b); !baba(a); r = plain(r); !truth_is_defeat(r > 2); write('n'); } undo { write('u'); } write('q'); }\n")
     T('nonlocal-preempt-value', "int !val(int v) { preempt { return 1; } return v; }\nempty @is_you(int a, int b) { try { sleep(!val(a)); !truth_is_defeat(b > 0); write('n'); } undo { write('u'); } write('q'); }\n")
+    # ... the same with one fault site per program and an explicit predicate (C05 pred tasks; the reference interpreter takes folded logic from the front end)
+    for op, k in itertools.product(('and', 'or'), ('true', 'false', 'KT', 'not KT', 'VERBOSE')):
+        kk = k.replace(' ', '')
+        T('logic-div-const-left-%s-%s' % (op, kk), "const bool KT = true;\nconst bool VERBOSE = false;\nempty @is_you(int a, int b) { write('p'); if ((10 / b == 1) %s %s) { write('t'); } else { write('f'); } write('q'); }\n" % (op, k))
+        T('logic-mod-div-const-left-%s-%s' % (op, kk), "const bool KT = true;\nconst bool VERBOSE = false;\nempty @is_you(int a, int b) { write('p'); bool r = (a %% b == 1) %s %s; sleep(r is int); write('q'); }\n" % (op, k))
+        T('logic-idx-%s-%s' % (op, kk), "const bool KT = true;\nconst bool VERBOSE = false;\nint[] ga = [1, 2, 3];\nempty @is_you(int i) { write('p'); if ((ga[i] > 1) %s %s) { write('t'); } else { write('f'); } write('q'); }\n" % (op, k))
+        T('logic-idx-string-%s-%s' % (op, kk), "const bool KT = true;\nconst bool VERBOSE = false;\nempty @is_you(int i) { write('p'); bool r = (\"abc\"[i] == 'b') %s %s; sleep(r is int); write('q'); }\n" % (op, k))
     # a faulting operand next to a constant operand of a logical operator (the constant decides the value, the fault still happens)
     for op, k in itertools.product(('and', 'or'), ('true', 'false', 'KT', 'not KT', 'VERBOSE')):
         T('logic-const-%s-%s' % (op, k.replace(' ', '')), "const bool KT = true;\nconst bool VERBOSE = false;\nint[] ga = [1, 2, 3];\nempty @is_you(int a, int b) { write('p'); if ((10 / a == 1) %s %s) { write('t'); } else { write('f'); } "
